@@ -1,9 +1,20 @@
 /*
  * Harness for crypto/crypto_entropy.c (C11).  White-box: the file is included so that the static
- * `drbg` / `instantiated` can be printed and reset.  entropy_read (util/entropy.c, not compiled)
- * is replaced by scripted answers.  Built WITHOUT CPUSUPPORT_X86_RDRAND.
+ * `drbg` / `instantiated` can be printed and reset.  Built WITHOUT CPUSUPPORT_X86_RDRAND.
+ *
+ * Component `drbg` (default build): entropy_read (util/entropy.c, not compiled) is replaced by
+ * scripted answers:  ent <hex>|FAIL ; read <n>.
+ * Component `drbgos` (-DDRBG_OS, util/entropy.c compiled, open/read/close wrapped, hfakeos.h): the
+ * real entropy_read runs over a scripted /dev/urandom; every open() takes the next queued answer:
+ *   ent <hex>                      a session whose stream is <hex>, asked for its length, no faults
+ *   ent FAIL                       open fails
+ *   entos <n> <stream hex> <script>  a session asked for n bytes with the read answers of <script>
+ * (nothing queued: open fails; a session asked for another length than it was written for: EIO.)
  */
 #include "hcommon.h"
+#ifdef DRBG_OS
+#include "hfakeos.h"
+#endif
 #include "crypto_entropy.c"
 
 #ifdef CPUSUPPORT_X86_RDRAND
@@ -11,10 +22,27 @@
 #endif
 
 /* scripted OS entropy: a queue of answers; fail != 0 means entropy_read returns -1 */
-struct answer { uint8_t * buf; size_t len; int fail; };
+struct answer { uint8_t * buf; size_t len; int fail; size_t n; char * script; };
 static struct answer * q = NULL;
 static size_t q_n = 0, q_pos = 0, q_cap = 0;
 
+#ifdef DRBG_OS
+/* open("/dev/urandom"): the next queued answer becomes the session */
+static int
+os_open(void)
+{
+	struct answer * a;
+
+	if (q_pos >= q_n)
+		return (0);
+	a = &q[q_pos++];
+	if (a->fail)
+		return (0);
+	fo_load(a->buf, a->len, a->script);
+	fo_first_len = a->n;
+	return (1);
+}
+#else
 int
 entropy_read(uint8_t * buf, size_t buflen)
 {
@@ -29,19 +57,22 @@ entropy_read(uint8_t * buf, size_t buflen)
 	memcpy(buf, a->buf, buflen);
 	return (0);
 }
+#endif
 
 static void
 q_reset(void)
 {
 	size_t i;
 
-	for (i = 0; i < q_n; i++)
+	for (i = 0; i < q_n; i++) {
 		free(q[i].buf);
+		free(q[i].script);
+	}
 	q_n = q_pos = 0;
 }
 
 static void
-q_push(const char * s)
+q_push(const char * s, const char * n, const char * script)
 {
 
 	if (q_n == q_cap) {
@@ -56,6 +87,8 @@ q_push(const char * s)
 		q[q_n].fail = 0;
 		q[q_n].buf = hc_unhex(s, &q[q_n].len);
 	}
+	q[q_n].n = (n != NULL) ? (size_t)strtoull(n, NULL, 10) : q[q_n].len;
+	q[q_n].script = (script != NULL) ? strdup(script) : NULL;
 	q_n++;
 }
 
@@ -85,6 +118,9 @@ main(void)
 	int rc;
 
 	setvbuf(stdout, NULL, _IOFBF, 1 << 16);
+#ifdef DRBG_OS
+	fo_open_hook = os_open;
+#endif
 	while (hc_next()) {
 		if (hc_is("case", 1)) {
 			/* fresh process state: zero-initialised statics, empty script */
@@ -93,8 +129,13 @@ main(void)
 			q_reset();
 			printf("case %s", hc_tok[1]);
 		} else if (hc_is("ent", 1)) {
-			q_push(hc_tok[1]);
+			q_push(hc_tok[1], NULL, NULL);
 			printf("ent | %zu", q_n - q_pos);
+#ifdef DRBG_OS
+		} else if (hc_is("entos", 3)) {
+			q_push(hc_tok[2], hc_tok[1], hc_tok[3]);
+			printf("ent | %zu", q_n - q_pos);
+#endif
 		} else if (hc_is("read", 1)) {
 			n = (size_t)strtoull(hc_tok[1], NULL, 10);
 			buf = malloc(n ? n : 1);	/* exact size: ASan sees an overrun */
